@@ -140,6 +140,16 @@ CHECKS = {
         ref="3/C16",
         technique="deterministic simulation: seeded fault injection by a hostile wire and a Byzantine authenticated peer, exception-class invariant",
     ),
+    "C17": dict(
+        level="exploration",
+        text=("a Byzantine authenticated sender (reference peer) and joserfc encrypt plaintexts at limit-2..limit+259, far below "
+              "and above it, in four compressibility classes, raw DEFLATE levels 0-9 and zlib-wrapped framing, plus bombs of "
+              "64-512 MiB logical size built without materialising them; the recipient call runs with a resource invariant "
+              "monitored during the run (recording proxy counting zlib output, tracemalloc peak); exact boundary verdict, "
+              "never a truncated plaintext, raw-DEFLATE framing of what joserfc emits."),
+        ref="3/C17",
+        technique="deterministic simulation: Byzantine authenticated sender + resource monitors (zlib output counter seam, tracemalloc) during the run",
+    ),
     "C20": dict(
         level="exploration",
         text=("T = 2..32 real caller threads run operations from a 70-entry catalogue over one shared world (eagerly and lazily "
